@@ -467,7 +467,7 @@ func genFactors(t *rapid.T) []Factor {
 }
 
 func TestGeneratorDialect(t *testing.T) {
-	harness.Rapid(t, harness.N(15000, 16*40000), func(t *rapid.T) {
+	harness.Rapid(t, harness.N(15000, 16*160000), func(t *rapid.T) {
 		cmds, labels := genCmds(t, true, true, true)
 		c := Case{Dialect: "generator", Cmds: cmds, Adj: uint8(rapid.IntRange(0, 6).Draw(t, "adj")), Factors: genFactors(t)}
 		c.D = render(t, cmds, "generator")
@@ -480,7 +480,7 @@ func TestGeneratorDialect(t *testing.T) {
 }
 
 func TestConverterDialect(t *testing.T) {
-	harness.Rapid(t, harness.N(15000, 16*40000), func(t *rapid.T) {
+	harness.Rapid(t, harness.N(15000, 16*160000), func(t *rapid.T) {
 		cmds, labels := genCmds(t, false, false, false)
 		c := Case{Dialect: "converter", Cmds: cmds, Adj: uint8(rapid.IntRange(0, 6).Draw(t, "adj"))}
 		c.Size = ops.F32(rapid.SampledFrom([]float32{12, 18, 24, 36, 48}).Draw(t, "size"))
@@ -539,7 +539,7 @@ func checkConcat(c ConcatCase) error {
 var subConcat = harness.Define("concat", "Concat of 0-4 Scale/Translate factors applied to a point equals applying the factors one after the other (1e-5 relative)", checkConcat)
 
 func TestConcat(t *testing.T) {
-	harness.Rapid(t, harness.N(5000, 16*20000), func(t *rapid.T) {
+	harness.Rapid(t, harness.N(5000, 16*80000), func(t *rapid.T) {
 		c := ConcatCase{Factors: genFactors(t)}
 		if rapid.Bool().Draw(t, "more") {
 			c.Factors = append(c.Factors, genFactors(t)...)
@@ -759,7 +759,7 @@ var subFile = harness.Define("converter-paths", "generated lists of converter-di
 
 func TestConverterPathsAndFiles(t *testing.T) {
 	nFile := 0
-	harness.Rapid(t, harness.N(4000, 16*10000), func(t *rapid.T) {
+	harness.Rapid(t, harness.N(4000, 16*40000), func(t *rapid.T) {
 		var c FileCase
 		c.Size = rapid.SampledFrom([]int{12, 18, 24, 36, 48}).Draw(t, "size")
 		c.OutSize = 48
